@@ -1,11 +1,11 @@
 SPECIFICATION Spec
 CONSTANTS
-  Scope = "full"
+  Scope = "quick"
   Prefixes <- D_Prefixes
   RoutePaths <- D_RoutePaths
   Kinds = {"use", "GET"}
   ContKinds = {"group", "mount"}
-  MaxRoutes = 3
+  MaxRoutes = 2
   MaxCont = 3
   MaxDepth = 3
 INVARIANT Emit
